@@ -15,14 +15,15 @@ enum BodyEncoding<'a, R> {
 
 impl<'a, R: Read> BodyReader<'a, R> {
     pub fn from_request(leftover: &'a [u8], stream: R, headers: &Headers) -> Self {
-        if let Some(content_len) = headers.get_content_length() {
+        // RFC 9112 6.3: Transfer-Encoding overrides Content-Length
+        if headers.is_transfer_encoding_chunked() {
+            Self::new_chunked(leftover, stream)
+        } else if let Some(content_len) = headers.get_content_length() {
             if content_len > 0 {
                 Self::new_fixed(leftover, stream, content_len as usize)
             } else {
                 Self::new_empty(stream)
             }
-        } else if headers.is_transfer_encoding_chunked() {
-            Self::new_chunked(leftover, stream)
         } else {
             Self::new_empty(stream)
         }
@@ -30,14 +31,14 @@ impl<'a, R: Read> BodyReader<'a, R> {
 
     #[cfg(feature = "client")]
     pub fn from_response(leftover: &'a [u8], stream: R, headers: &Headers) -> Self {
-        if let Some(content_len) = headers.get_content_length() {
+        if headers.is_transfer_encoding_chunked() {
+            Self::new_chunked(leftover, stream)
+        } else if let Some(content_len) = headers.get_content_length() {
             if content_len > 0 {
                 Self::new_fixed(leftover, stream, content_len as usize)
             } else {
                 Self::new_empty(stream)
             }
-        } else if headers.is_transfer_encoding_chunked() {
-            Self::new_chunked(leftover, stream)
         } else {
             Self::new_eof(leftover, stream)
         }
